@@ -685,7 +685,7 @@ fn spawn_async_ao_list_in_task'''),
         ('unset-readonly-variable-accepts-its-first-value', 'brush-core/src/variables.rs', "    pub fn assign(&mut self, value: ShellValueLiteral, append: bool) -> Result<(), error::Error> {\n        if self.is_readonly() {", "    pub fn assign(&mut self, value: ShellValueLiteral, append: bool) -> Result<(), error::Error> {\n        if self.is_readonly() && self.value.is_set() {"),
         ('declare-in-a-function-looks-everywhere', 'brush-builtins/src/declare.rs', "        let lookup = if create_var_local {", "        let lookup = if matches!(verb, DeclareVerb::Local) {"),
         ('declare-g-still-creates-a-local', 'brush-builtins/src/declare.rs', "                && context.shell.in_function()\n                && !self.create_global);", "                && context.shell.in_function());"),
-        ('local-lookup-reaches-callers-locals', 'brush-builtins/src/declare.rs', "            EnvironmentLookup::OnlyInCurrentLocal\n        } else {\n            EnvironmentLookup::Anywhere", "            EnvironmentLookup::OnlyInLocal\n        } else {\n            EnvironmentLookup::Anywhere"),
+        ('local-lookup-reaches-callers-locals', 'brush-builtins/src/declare.rs', "        let lookup = if create_var_local {\n            EnvironmentLookup::OnlyInCurrentLocal", "        let lookup = if create_var_local {\n            EnvironmentLookup::OnlyInLocal"),
     ],
     'U33': [
         ('plain-key-tried-before-the-quote-aware-key', 'brush-parser/src/word.rs', [('            "[" inner:array_index() "]=" value:$([_]*) {\n                (Some(inner.to_owned()), value.to_owned())\n            } /\n            "[" inner:$((!"]" [_])*) "]=" value:$([_]*) {', '            "[" inner:$((!"]" [_])*) "]=" value:$([_]*) {\n                (Some(inner.to_owned()), value.to_owned())\n            } /\n            "[" inner:array_index() "]=" value:$([_]*) {')]),
